@@ -23,7 +23,7 @@ QueryOutcome(q, banks, idx) ==
                    ELSE IF ~q.choice.lib THEN "non-library-exception" ELSE "ok")
         ELSE IF q.choice.k = "exc" THEN "choice-raised-although-candidates-exist"
         ELSE IF ~SelectOK(q.choice.v, q.cands.v) THEN "wrong-choice"
-        ELSE IF \E j \in 1..Len(q.inv) : q.code \notin {q.inv[j].dom[n] : n \in 1..Len(q.inv[j].dom)}
+        ELSE IF \E j \in 1..Len(q.inv) : ~q.inv[j].lists_code
              THEN "candidate-does-not-list-the-bank-code"
         ELSE IF \E j \in 1..Len(q.inv) : ~q.inv[j].exists THEN "candidate-does-not-exist"
         ELSE "ok"
